@@ -15,7 +15,7 @@
 (*   the cross references in the docstring / its summary / annotations;    *)
 (*   docsrc is the object whose docstring is shown (inherited docstrings). *)
 (*                                                                         *)
-(* Site  S = [files, anchors, links, entries, inv, docs, search]           *)
+(* Site  S = [files, subjects, anchors, links, entries, inv, docs, search] *)
 (*   a file is named by its percent-decoded path without ".html", a link   *)
 (*   is [page, file, frag, prod, member] (prod = the producer in           *)
 (*   templatewriter/* that wrote it), a listing entry is                   *)
@@ -33,10 +33,13 @@
 EXTENDS Naturals, Sequences, FiniteSets, TLC, Json, IOUtils
 
 CONSTANTS Source,         \* "enum" | "file"
+          Fixed,          \* known findings whose fix is in the tree (known_findings.json status "fixed"): the
+                          \* producers below then follow the repaired code instead of the deviation
           MaxNonDefault,  \* enum: at most this many objects get a non-default privacy
           Depths          \* enum: values of --sidebar-expand-depth
 
 None == "none"
+Fx(f) == f \in Fixed
 Range(s) == {s[i] : i \in DOMAIN s}
 Cases == IF Source = "file" THEN JsonDeserialize(IOEnv.SITE_FILE) ELSE <<>>
 
@@ -161,13 +164,15 @@ FragOf(i)  == IF IsOwn(i) THEN "" ELSE Objs[i].name
 Url(i)     == [file |-> FileOf(i), frag |-> FragOf(i)]
 \* writer.py:120 opens the QUOTED url as a file name: the page of an object whose name needs percent-encoding lies
 \* on disk under the encoded name, while a link to it means the decoded name
-Written(i) == IF FileOf(i) = "index" THEN "index" ELSE Objs[PageOf(i)].qid
+Written(i) == IF FileOf(i) = "index" \/ Fx("percent-encoded-page-filename") THEN FileOf(i) ELSE Objs[PageOf(i)].qid
 
 \* linker.py:21-47 taglink: NO visibility test (it only logs); a target on the linker's page is shortened to
 \* "#frag", which the browser resolves against the page the fragment is RENDERED on.
 TagLink(t, ctxfile, page) == IF ctxfile # "" /\ FileOf(t) = ctxfile /\ FragOf(t) # ""
                              THEN [file |-> page, frag |-> FragOf(t)] ELSE Url(t)      \* ctxfile: a FileOf(), page: a Written()
 
+\* with the fix of link-to-hidden-object taglink() returns the bare label for a hidden target: no link
+Linkable(S) == IF Fx("link-to-hidden-object") THEN {t \in S : Vis(t)} ELSE S
 \* taglink(t, page_url = the url of page object p), written on p's own page
 PL(t, p) == TagLink(t, FileOf(p), Written(p))
 
@@ -199,10 +204,10 @@ Namespace(p, pf) == {L(pf, Url(a), "namespace") : a \in {x \in Chain(p) : IsOwn(
 ChildTable(p, pf) == {L(pf, PL(c, p), "childTable") : c \in VisContents(p)}                             \* :283,:385; table.py:50
 BaseTable(p, pf) == IF IsCls(p) THEN {L(pf, PL(c, p), "baseTable") : c \in Inherited(p)} ELSE {}        \* :483
 BaseName(p, pf) == IF IsCls(p)                                                                        \* :497 (no visibility test)
-                   THEN {L(pf, Url(Mro(p)[j]), "baseName") : j \in {j \in 2..Len(Mro(p)) : \E k \in BaseIdx(p) : j = k \/ (2 <= j /\ j < k)}}
+                   THEN {L(pf, Url(b), "baseName") : b \in Linkable({Mro(p)[j] : j \in {j \in 2..Len(Mro(p)) : \E k \in BaseIdx(p) : j = k \/ (2 <= j /\ j < k)}})}
                    ELSE {}
 ClassSignature(p, pf) == IF IsCls(p)                                                                  \* :68 format_class_signature
-                         THEN {L(pf, Url(b), "classSignature") : b \in {b \in Range(Objs[p].bases) : b \in Ids}} ELSE {}
+                         THEN {L(pf, Url(b), "classSignature") : b \in Linkable({b \in Range(Objs[p].bases) : b \in Ids})} ELSE {}
 Subclasses(p, pf) == IF IsCls(p)                                                                      \* :465 assembleList filters on isVisible
                      THEN {L(pf, Url(s), "subclasses") : s \in {s \in Objs[p].subclasses : s \in Ids /\ Vis(s)}} ELSE {}
 \* :517 get_override_info, called for the class itself and for every member shown (objectExtras)
@@ -211,7 +216,7 @@ Overridden(p, nm) == LET ks == {k \in 2..Len(Mro(p)) : Mro(p)[k] \in Ids /\ nm \
                         ELSE LET k == CHOOSE k \in ks : \A k2 \in ks : k <= k2
                              IN {c \in Contents(Mro(p)[k]) : Objs[c].name = nm}
 Overrides(p, pf) == IF IsCls(p)                                                                       \* no visibility test
-                    THEN {L(pf, PL(c, p), "overrides") : c \in UNION {Overridden(p, Objs[x].name) : x \in Methods(p) \cup {p}}} ELSE {}
+                    THEN {L(pf, PL(c, p), "overrides") : c \in Linkable(UNION {Overridden(p, Objs[x].name) : x \in Methods(p) \cup {p}})} ELSE {}
 RECURSIVE OvSubs(_, _, _)      \* util.py:46 overriding_subclasses
 OvSubs(c, nm, first) == IF ~first /\ nm \in Names(Contents(c)) THEN {c}
                         ELSE UNION {OvSubs(s, nm, FALSE) : s \in {s \in Objs[c].subclasses : s \in Ids /\ Vis(s)}}
@@ -222,12 +227,14 @@ HeaderLink(p, pf) == {L(pf, [file |-> pf, frag |-> Objs[c].name], "headerLink") 
 InHierarchy(p, pf) == IF IsCls(p) THEN {L(pf, [file |-> "classIndex", frag |-> p], "inhierarchy")} ELSE {}   \* :479
 \* epydoc2stan.py:783 format_docstring: the stan is made with the linker of the docstring's SOURCE object, whose
 \* page is the source's page; it is rendered on page pf (deviation when the docstring is inherited)
-Docstring(p, pf) == {L(pf, TagLink(t, FileOf(Objs[p].docsrc), pf), "docstring") : t \in Objs[p].xrefs}
-MemberDoc(p, pf) == UNION {{LM(pf, TagLink(t, FileOf(Objs[c].docsrc), pf), "memberDoc", c) : t \in Objs[c].xrefs} : c \in Methods(p)}
+\* (with the fix of inherited-docstring-samepage-link: full urls when source and object live on different pages)
+DocCtx(c) == IF Fx("inherited-docstring-samepage-link") /\ PageOf(Objs[c].docsrc) # PageOf(c) THEN "" ELSE FileOf(Objs[c].docsrc)
+Docstring(p, pf) == {L(pf, TagLink(t, DocCtx(p), pf), "docstring") : t \in Linkable(Objs[p].xrefs)}
+MemberDoc(p, pf) == UNION {{LM(pf, TagLink(t, DocCtx(c), pf), "memberDoc", c) : t \in Linkable(Objs[c].xrefs)} : c \in Methods(p)}
 \* epydoc2stan.py:814 format_summary: switch_context(None) -> always full urls
-SummaryRefs(pg, S) == UNION {{L(pg, Url(t), "summaryDoc") : t \in Objs[c].sumrefs} : c \in S}
+SummaryRefs(pg, S) == UNION {{L(pg, Url(t), "summaryDoc") : t \in Linkable(Objs[c].sumrefs)} : c \in S}
 \* linker.py:242 _AnnotationLinker: switch_context(obj) -> the page of the annotated object
-Annotation(p, pf) == UNION {{L(pf, TagLink(t, FileOf(p), pf), "annotation") : t \in Objs[c].annrefs} : c \in Methods(p)}
+Annotation(p, pf) == UNION {{L(pf, TagLink(t, FileOf(p), pf), "annotation") : t \in Linkable(Objs[c].annrefs)} : c \in Methods(p)}
 
 \* sidebar.py: two sections (the object, and its package / module), items expand while level < depth
 RECURSIVE SideItems(_, _)
@@ -259,16 +266,20 @@ ObjPageEntries(p) ==
 \* ---- summary.py
 RECURSIVE ModTree(_)      \* :20 moduleSummary ; the roots themselves are NOT filtered on visibility (:75)
 ModTree(m) == {m} \cup (IF Objs[m].cls = "Package" THEN UNION {ModTree(s) : s \in {c \in VisContents(m) : IsMod(c)}} ELSE {})
-ModListed == UNION {ModTree(r) : r \in Range(Roots)}
-ModuleIndexLinks == {L("moduleIndex", Url(m), "moduleIndex") : m \in ModListed} \cup SummaryRefs("moduleIndex", ModListed)
-ModuleIndexEntries == {E("moduleIndex", "moduleIndex", Url(m), IsPrivate(m)) : m \in ModListed}
+ListedRoots == IF Fx("hidden-root-listed") THEN {r \in Range(Roots) : Vis(r)} ELSE Range(Roots)
+ModListed == UNION {ModTree(r) : r \in ListedRoots}
+\* (an item whose link taglink() refused is still written, but carries nothing the crawl recognises as an entry)
+ModuleIndexLinks == {L("moduleIndex", Url(m), "moduleIndex") : m \in Linkable(ModListed)} \cup SummaryRefs("moduleIndex", ModListed)
+ModuleIndexEntries == {E("moduleIndex", "moduleIndex", Url(m), IsPrivate(m)) : m \in Linkable(ModListed)}
 
 \* :84 findRootClasses / :130 subclassesFrom
-CIClasses == {c \in Ids : IsCls(c) /\ ~Objs[c].dupname /\ Vis(c)}
+Documented(i) == Vis(i) /\ InTree(i)     \* util.is_documented() of the fix of superseded-duplicate-listed
+CIClasses == {c \in Ids : IsCls(c) /\ Vis(c) /\ (IF Fx("superseded-duplicate-listed") THEN InTree(c) ELSE ~Objs[c].dupname)}
 CITop == {c \in CIClasses : Objs[c].bases = <<>> \/ \E j \in DOMAIN Objs[c].bases :
                                Objs[c].bases[j] \notin Ids \/ ~Vis(Objs[c].bases[j])}
 RECURSIVE CIReach(_)
-CIReach(c) == {c} \cup UNION {CIReach(s) : s \in {s \in Objs[c].subclasses : s \in Ids /\ ~Objs[s].dupfull /\ Vis(s)}}
+CIReach(c) == {c} \cup UNION {CIReach(s) : s \in {s \in Objs[c].subclasses : s \in Ids /\ Vis(s)
+                                   /\ (IF Fx("superseded-duplicate-listed") THEN InTree(s) ELSE ~Objs[s].dupfull)}}
 CIListed == UNION {CIReach(t) : t \in CITop}
 RECURSIVE PrivCtx(_)      \* :107 isPrivate(obj): the object or one of its containers
 PrivCtx(i) == IsPrivate(i) \/ (Objs[i].parent # None /\ Objs[i].parent \in Ids /\ PrivCtx(Objs[i].parent))
@@ -278,7 +289,7 @@ ClassIndexLinks == {L("classIndex", Url(c), "classIndex") : c \in CIListed} \cup
 ClassIndexEntries == {E("classIndex", "classIndex", Url(c), ClassNodePrivate(c)) : c \in CIListed}
 
 \* :273 NameIndexPage, :330 UndocumentedSummaryPage, search.py:21, :118 : built from allobjects, visible only
-AllVisible == {i \in Ids : Vis(i)}
+AllVisible == {i \in Ids : Vis(i) /\ (Fx("superseded-duplicate-listed") => InTree(i))}
 Initials == {Objs[i].initial : i \in AllVisible}
 NameIndexLinks == {L("nameIndex", Url(i), "nameIndex") : i \in AllVisible}
                   \cup (IF Cardinality(Initials) > 1 THEN {L("nameIndex", [file |-> "nameIndex", frag |-> x], "letterlinks") : x \in Initials} ELSE {})
@@ -287,10 +298,10 @@ Undocced == {i \in AllVisible : ~Objs[i].doc}
 UndoccedLinks == {L("undoccedSummary", Url(i), "undocced") : i \in Undocced}
 UndoccedEntries == {E("undoccedSummary", "undocced", Url(i), FALSE) : i \in Undocced}
 \* :300 IndexPage (more than one root): the roots are NOT filtered on visibility (:310)
-IndexLinks == IF Multi THEN {L("index", Url(r), "indexRoots") : r \in Range(Roots)}
+IndexLinks == IF Multi THEN {L("index", Url(r), "indexRoots") : r \in Linkable(ListedRoots)}
                             \cup {L("index", [file |-> t, frag |-> ""], "indexStatic") : t \in {"moduleIndex", "classIndex", "nameIndex"}}
                        ELSE {}
-IndexEntries == IF Multi THEN {E("index", "indexRoots", Url(r), FALSE) : r \in Range(Roots)} ELSE {}
+IndexEntries == IF Multi THEN {E("index", "indexRoots", Url(r), FALSE) : r \in Linkable(ListedRoots)} ELSE {}
 AllDocsLinks == SummaryRefs("all-documents", AllVisible)
 Docs == {[id |-> i, file |-> FileOf(i), frag |-> FragOf(i), privacy |-> Objs[i].priv] : i \in AllVisible}
 Search == AllVisible
@@ -309,6 +320,8 @@ Pred ==
                \cup UNION {Nav(pg) : pg \in SummaryFiles \cup (IF Multi THEN {"index"} ELSE {})},
    entries |-> UNION {ObjPageEntries(p) : p \in ObjPages} \cup ModuleIndexEntries \cup ClassIndexEntries
                \cup NameIndexEntries \cup UndoccedEntries \cup IndexEntries,
+   subjects |-> [pg \in HtmlFiles |-> IF \E p \in ObjPages : Written(p) = pg THEN CHOOSE p \in ObjPages : Written(p) = pg
+                                      ELSE IF SingleRoot /\ pg = Roots[1] THEN Roots[1] ELSE ""],
    inv     |-> Inventory, docs |-> Docs, search |-> Search, fsearch |-> Search,
    encfiles |-> {FileOf(i) : i \in {i \in ObjPages : Written(i) # FileOf(i)}}]
 PredView == [i \in Ids |-> [id |-> i, parent |-> Objs[i].parent, priv |-> Objs[i].priv, own |-> IsOwn(i),
@@ -328,7 +341,9 @@ Resolves(S, f, g) == f \in S.files /\ (g = "" \/ (f \in DOMAIN S.anchors /\ g \i
 \* C11
 BadLinks(S) == {l \in S.links : ~Resolves(S, l.file, l.frag)}
 BadDocs(S)  == {d \in S.docs : ~Resolves(S, d.file, d.frag)}
-NoPage(O, S)   == {i \in DOMAIN O : ~HiddenIn(O, i) /\ O[i].own /\ O[i].file \notin S.files}
+\* "has its OWN page at the address links use for it": the file exists and is the page of that object
+NoPage(O, S)   == {i \in DOMAIN O : ~HiddenIn(O, i) /\ O[i].own
+                                     /\ ~(O[i].file \in S.files /\ O[i].file \in DOMAIN S.subjects /\ S.subjects[O[i].file] = i)}
 NoAnchor(O, S) == {i \in DOMAIN O : ~HiddenIn(O, i) /\ ~O[i].own /\ ~(O[i].frag # "" /\ Resolves(S, O[i].file, O[i].frag))}
 LinksResolve(O, S)           == BadLinks(S) = {} /\ BadDocs(S) = {}
 VisibleHasPage(O, S)         == NoPage(O, S) = {}
@@ -434,7 +449,7 @@ ObsSite == [files   |-> Range(Case.site.files),
             links   |-> Range(Case.site.links), entries |-> Range(Case.site.entries),
             inv     |-> Range(Case.site.inv), docs |-> Range(Case.site.docs),
             search  |-> Range(Case.site.search), fsearch |-> Range(Case.site.fsearch),
-            encfiles |-> Range(Case.site.encfiles)]
+            encfiles |-> Range(Case.site.encfiles), subjects |-> Case.site.subjects]
 RECURSIVE CaseInTree(_)
 CaseInTree(i) == Case.objs[i].incontents /\ (Case.objs[i].parent = None
                     \/ (Case.objs[i].parent \in DOMAIN Case.objs /\ CaseInTree(Case.objs[i].parent)))
@@ -451,7 +466,10 @@ Diff(S) ==
       opages == Range(Case.site.pages)
       oa == UNION {{<<pg, a>> : a \in Range(Case.site.nameanchors[pg])} : pg \in opages}
       pa == UNION {{<<pg, a>> : a \in P.anchors[pg]} : pg \in P.files}
+      os == {<<pg, S.subjects[pg]>> : pg \in DOMAIN S.subjects}
+      ps == {<<pg, P.subjects[pg]>> : pg \in DOMAIN P.subjects}
   IN [files_missing |-> P.files \ opages, files_extra |-> opages \ P.files,
+      subjects_missing |-> ps \ os, subjects_extra |-> os \ ps,
       links_missing |-> pl \ ol, links_extra |-> ol \ pl,
       entries_missing |-> pe \ oe, entries_extra |-> oe \ pe,
       anchors_missing |-> pa \ oa, anchors_extra |-> oa \ pa,
